@@ -15,7 +15,7 @@ import (
 func init() {
 	checks["C01"] = func(o checkOpts) int {
 		return runGenCheck(o, "exploration",
-			genBudget{cases: 160, wall: 100 * time.Second, shrinkN: 40, shrinkT: 60 * time.Second},
+			genBudget{cases: 1200, wall: 90 * time.Second, shrinkN: 40, shrinkT: 60 * time.Second},
 			genBudget{cases: 6000, wall: 25 * time.Minute, shrinkN: 200, shrinkT: 8 * time.Minute},
 			"one case = one generated module (1-6 named types over the supported grammar, 1-8 derive calls from all plugins in the call-site forms of the statement) executed fault-free under a tape-chosen map-iteration plan (identity/reverse/rotate/random), package order and GOMAXPROCS; clauses: exit 0, no panic, package + tests type-check with derived.gen.go, file gofmt-clean; distinct = distinct hash of (world sources, plan); non-trivial = at least 2 derive calls or a nested / imported / test-file call",
 			[]string{"the workload generator emits only call shapes the Readme / plugin documentation list as supported (DESIGN.md appendix A); a shape outside what it draws is not covered"})
